@@ -3,10 +3,15 @@
 Enumerated (complete product, no sampling):
     source grid (12 per D; the small ones carry ALL unit impulses, i.e. the full sampling operator)
   x target menu {identity, shift, fine, coarse, size, perm90, rot20, flip, partial}
+    + grids DERIVED by the library's own Grid methods, i.e. with a fractional internal size: target = source.downsample(),
+      .resample(0.65 x spacing), .downsample().pad(1), .resample(..).crop(1); source grids = .resample(0.65 x spacing)
+      with target = shift / .downsample()  (headers of the oracle = what the real Grid objects report)
   x (source align_corners, target align_corners) in {T,F}^2
-  x interpolation {linear, nearest} x padding {zeros, border, constant -3.5}
+  x interpolation {linear, nearest} x padding {zeros, border, constant c as float -3.5, int 7, negative int -12,
+    numpy.float64 2.5, 0-d tensor -1.5}
   x API / batch forms {Image.sample(grid), ImageBatch.sample(grid | [grids]) with N=1, N=2 shared grid, N=2 per-image
-    grids, sample(coords), SampleImage, AlignImage(None), TransformImage(None)}; the three module APIs additionally
+    grids, sample(coords), SampleImage, AlignImage(None), TransformImage(None),
+    functional core.image.grid_sample / sample_image on plain tensors}; the three module APIs additionally
     with every explicit `axes` value (grid, world, cube, cube_corners), the target points being handed in those axes
 Every sampling call is executed twice on the same receiver / input objects: the inputs must be bit-identical before
 and after the call (signature .../input-mutated) and the two results must be bit-identical (.../repeat-call).
@@ -37,7 +42,9 @@ import deepali.modules  # noqa: F401,E402
 
 PROPERTY = "C05"
 RULE = (
-    "complete product source grid x target menu x (source, target) align_corners x interpolation x padding x API/batch "
+    "complete product source grid x target menu (9 constructed + 6 derived by Grid.downsample/resample/pad/crop with fractional "
+    "internal size, on target and on source side) x (source, target) align_corners x interpolation x padding (zeros, border, "
+    "constant as float / int / negative int / numpy.float64 / 0-d tensor) x API/batch (methods, modules, functional) "
     "form (module APIs also x explicit axes in {grid, world, cube, cube_corners}), every call executed twice on the same "
     "objects (inputs fingerprinted before/after, results bit-identical), executed on the real code and compared sample by sample with SimpleITK (inside the source field of view) and "
     "an own float64 interpolator (padding region); distinct = exact bits of the returned tensor; non-trivial = target "
@@ -52,17 +59,22 @@ ASSUMPTIONS = [
     "nearest neighbour: samples within 1e-3 of a tie are not judged; samples within 1e-3 outside the boundary of the field of view are not judged (knife-edge rule)",
     "impulse images on sources with <= 12 voxels recover the whole sampling operator (linearity), other sources carry an integer pattern in [0, 100]",
 ]
-# measured (quick): 48384 configurations, 3875 distinct result tensors, 34668 non-trivial; thorough = 3 x the sources
-MIN_NONTRIVIAL = {"quick": 17000, "thorough": 40000}
-MIN_OUTCOMES = {"quick": 1900, "thorough": 4000}
-MIN_SUB_TRACES = {"fov": 24000, "own-grid": 450, "coords": 3400, "padding": 9900, "input-fingerprint": 24000, "repeat-call": 24000}
+# measured (quick): 221760 configurations, 18289 distinct result tensors, 173768 non-trivial; thorough = 3 x the sources
+MIN_NONTRIVIAL = {"quick": 85000, "thorough": 200000}
+MIN_OUTCOMES = {"quick": 9000, "thorough": 20000}
+MIN_SUB_TRACES = {"fov": 110000, "own-grid": 1100, "coords": 13000, "padding": 50000, "input-fingerprint": 110000, "repeat-call": 110000}
 
 EPS32 = 2.0 ** -23
 CTOL = 64.0
 CONST_PAD = -3.5
 TARGETS = ["identity", "shift", "fine", "coarse", "size", "perm90", "rot20", "flip", "partial"]
+# grids DERIVED by Grid methods (fractional internal size): d_* = target derived from the source grid object,
+# sf_* = the SOURCE grids themselves are derived (resample to a non-dividing spacing), target from them
+TARGETS += ["d_down", "d_resamp", "d_down_pad", "d_resamp_crop", "sf_shift", "sf_down"]
 MODES = ["linear", "nearest"]
-PADDINGS = ["zeros", "border", "const"]
+# constant padding c in every scalar form the signature admits (Scalar = int | float | Tensor; numpy.float64 is a float)
+PAD_VALUES = {"const": -3.5, "int": 7, "negint": -12, "npfloat": 2.5, "tensor0d": -1.5}
+PADDINGS = ["zeros", "border", "const", "int", "negint", "npfloat", "tensor0d"]
 FORMS = [
     # (api, batch form)
     ("Image.sample(grid)", "N1"),
@@ -81,6 +93,12 @@ FORMS = [
     ("AlignImage", "N2shared"),
     ("TransformImage", "N1"),
     ("TransformImage", "N2shared"),
+    # functional API (plain tensors, normalised coordinates of the source cube)
+    ("U.grid_sample", "N1"),
+    ("U.grid_sample", "N2shared"),
+    ("U.grid_sample", "N2own"),
+    ("U.sample_image", "N1"),
+    ("U.sample_image", "N2own"),
 ]
 # module APIs with an explicit `axes` argument: every Axes value, target points handed in those axes
 MODULE_AXES = ["grid", "world", "cube", "cube_corners"]
@@ -169,6 +187,19 @@ def target_of(r: RefGrid, name: str, ac: bool) -> RefGrid:
     return t
 
 
+def derived_target(g, name: str):
+    """Target grid derived from the live source Grid object by the library's own Grid methods (fractional sizes)."""
+    if name in ("d_down", "sf_down"):
+        return g.downsample(1, min_size=2)
+    if name == "d_resamp":
+        return g.resample(tuple((g.spacing() * 0.65).tolist()))
+    if name == "d_down_pad":
+        return g.downsample(1, min_size=2).pad(1)
+    if name == "d_resamp_crop":
+        return g.resample(tuple((g.spacing() * 0.65).tolist())).crop(1)
+    raise KeyError(name)
+
+
 def real_grid_of(r: RefGrid):
     from deepali.core.grid import Grid
 
@@ -235,15 +266,24 @@ class Ctx:
         r1 = second_source(r0, seed)
         r1.ac = sac
         self.src_real = [rg.real_grid(s), real_grid_of(r1)]
+        if tname.startswith("sf_"):
+            # source grids with a fractional internal size, produced by the library's own derivation
+            self.src_real = [g.resample(tuple((g.spacing() * 0.65).tolist())) for g in self.src_real]
         self.src = [RefGrid.from_real(g) for g in self.src_real]  # headers as the real objects carry them
-        t0, t1 = target_of(r0, tname, tac), target_of(r1, tname, tac)
         if tname == "identity":
             # 'its own grid' = the grid objects of the images (other flag when tac != sac)
             self.tgt_real = [g if tac == sac else g.align_corners(tac) for g in self.src_real]
+        elif tname.startswith("d_") or tname == "sf_down":
+            self.tgt_real = [derived_target(g, tname).align_corners(tac) for g in self.src_real]
+        elif tname == "sf_shift":
+            self.tgt_real = [real_grid_of(target_of(r, "shift", tac)) for r in self.src]
         else:
+            t0, t1 = target_of(r0, tname, tac), target_of(r1, tname, tac)
             self.tgt_real = [real_grid_of(t0), real_grid_of(t1)]
         self.tgt = [RefGrid.from_real(g) for g in self.tgt_real]
-        self.data = [content(r0.n, 0), content(r0.n, 1)]
+        if self.tgt[0].n.min() < 2 or not np.array_equal(self.tgt[0].n, self.tgt[1].n) or not np.array_equal(self.src[0].n, self.src[1].n):
+            raise AssertionError(f"harness: derived grids outside the domain ({tname}: {self.tgt[0].n}, {self.tgt[1].n})")
+        self.data = [content(self.src[0].n, 0), content(self.src[0].n, 1)]
         self.range = float(max(np.abs(d).max() for d in self.data))
         self._cache = {}
 
@@ -267,15 +307,20 @@ class Ctx:
         undef = ri.knife_edge(pts, s.n, 1e-6, 1e-3)
         if mode == "nearest":
             undef = undef | ri.near_tie(pts, 1e-3)
-        kpad = {"zeros": "zeros", "border": "border", "const": "constant"}[padding]
-        own = ri.interp(self.data[content_i], pts, mode, kpad, CONST_PAD)
+        kpad = padding if padding in ("zeros", "border") else "constant"
+        own = ri.interp(self.data[content_i], pts, mode, kpad, float(PAD_VALUES.get(padding, 0.0)))
         ikey = ("itk", content_i, si, ti, mode)
         if ikey not in self._cache:
             self._cache[ikey] = itk_resample(self.data[content_i], s, t, mode).reshape(own.shape[0], -1)
         itk = self._cache[ikey]
         ji = inside & ~undef
         if ji.any():
-            dis = np.abs(itk[:, ji] - own[:, ji]).max()
+            # inside the field of view every padding semantics coincides; the cross-check uses the clamped (border)
+            # evaluation so that a sample a float32 rounding (<= 1e-6) outside the hull is not blended with the padding
+            bkey = ("own-border", content_i, si, ti, mode)
+            if bkey not in self._cache:
+                self._cache[bkey] = ri.interp(self.data[content_i], pts, mode, "border", 0.0)
+            dis = np.abs(itk[:, ji] - self._cache[bkey][:, ji]).max()
             if dis > 1e-6 * max(self.range, 1.0):
                 raise AssertionError(f"harness: ITK and the own interpolator disagree inside the field of view by {dis:.3e} ({self.tname}, {mode})")
         exp = np.where(inside[None, :], itk, own)
@@ -283,10 +328,11 @@ class Ctx:
         self._cache[key] = res
         return res
 
-    def tol(self, si: int, ti: int) -> float:
+    def tol(self, si: int, ti: int, padding: str = "zeros") -> float:
         s, t = self.src[si], self.tgt[ti]
         K = max(np.abs(s.origin).max() / s.s.min() + s.n.max(), np.abs(t.origin).max() / t.s.min() + t.n.max())
-        return CTOL * EPS32 * self.range * (1.0 + K)
+        rng = max(self.range, abs(float(PAD_VALUES.get(padding, 0.0))))  # blending with the constant c near the boundary
+        return CTOL * EPS32 * rng * (1.0 + K)
 
 
 def cube_coords(s: RefGrid, pts: np.ndarray, ac: bool) -> np.ndarray:
@@ -297,7 +343,15 @@ def cube_coords(s: RefGrid, pts: np.ndarray, ac: bool) -> np.ndarray:
 
 # ---------------------------------------------------------------------------
 def padding_arg(p: str):
-    return CONST_PAD if p == "const" else p
+    """The padding argument in the scalar FORM named by p (same numeric meaning: extrapolate with the constant)."""
+    if p in ("zeros", "border"):
+        return p
+    v = PAD_VALUES[p]
+    if p == "npfloat":
+        return np.float64(v)
+    if p == "tensor0d":
+        return torch.tensor(v)
+    return v  # python float / int / negative int
 
 
 def _fingerprint(tensors) -> bytes:
@@ -343,6 +397,18 @@ def prepare(ctx: Ctx, api: str, bform: str, mode: str, padding: str):
             cos = cos[:1]  # (1, ..., D) broadcast to both images
         cot = torch.from_numpy(np.stack(cos).astype(np.float32))
         return plan, (lambda: b.sample(cot, mode=mode, padding=pad)), [data, b.tensor(), cot]
+    if api.startswith("U."):
+        from deepali.core import image as UI
+
+        cos = [cube_coords(ctx.src[si], ctx.pts(si, ti), ctx.sac).reshape(tshape(ti) + (D,)) for _, si, ti in plan]
+        if bform == "N2shared":
+            cos = cos[:1]
+        cot = torch.from_numpy(np.stack(cos).astype(np.float32))
+        if api == "U.grid_sample":
+            return plan, (lambda: UI.grid_sample(data, cot, mode=mode, padding=pad, align_corners=ctx.sac)), [data, cot]
+        flat = cot.reshape(cot.shape[0], -1, D)  # (N, M, D): an arbitrary point set
+        return plan, (lambda: UI.sample_image(data, flat, mode=mode, padding=pad, align_corners=ctx.sac).reshape(
+            (data.shape[0], data.shape[1]) + tshape(plan[0][2]))), [data, flat]
     base, _, rest = api.partition("(axes=")
     axes = rest[:-1] if rest else None
     cls = {"SampleImage": SampleImage, "AlignImage": AlignImage, "TransformImage": TransformImage}[base]
@@ -420,7 +486,7 @@ def judge_form(ctx: Ctx, api, bform, mode, padding, acc: Acc = None):
     ntot = 0
     for i, (ci, si, ti) in enumerate(plan):
         exp, inside, ji, jp = ctx.expected(ci, si, ti, mode, padding)
-        tol = ctx.tol(si, ti)
+        tol = ctx.tol(si, ti, padding)
         v = val[i].reshape(C, -1)
         err = np.abs(v - exp)
         nin += int(ji.sum())
@@ -458,7 +524,7 @@ def coords_vs_grid(ctx: Ctx, bform, mode, padding, val_coords):
         return [("coords-vs-grid", f"shapes differ: {val_coords.shape} vs {val.shape}")]
     out = []
     for i, (ci, si, ti) in enumerate(plan):
-        tol = 2 * ctx.tol(si, ti)
+        tol = 2 * ctx.tol(si, ti, padding)
         pts = ctx.pts(si, ti)
         ok = ~ri.knife_edge(pts, ctx.src[si].n, 1e-6, 1e-3)
         if mode == "nearest":
